@@ -247,6 +247,16 @@ def main(argv=None) -> int:
         n_ok += len(lines) - len(survivors)
         by_backend.setdefault("canary", {"count": 0, "seconds": 0.0})["count"] += len(lines)
 
+    crosscheck_report = None
+    if args.tier == "thorough" and pid in ("C05", "C11") and not os.environ.get("PYVC_NO_CANARIES"):
+        # CPython cross-check of the proved pure contracts (a guard of the encoding, never counted as proof)
+        import subprocess
+
+        cc = subprocess.run([sys.executable, os.path.join(VERIF, "tools", "crosscheck.py"), "4000"], capture_output=True, text=True)
+        crosscheck_report = (cc.stdout.strip().splitlines() or ["no output"])[-1]
+        if cc.returncode != 0:
+            broken.append("CPython cross-check of the pure contracts failed: " + cc.stdout[-600:])
+
     # ---------------------------------------------------------------- report
     REPLAYS = os.environ.get("PYVC_REPLAY_DIR", os.path.join(VERIF, "replays"))
     EVID = os.environ.get("PYVC_EVIDENCE_DIR", os.path.join(VERIF, "evidence"))
@@ -290,7 +300,7 @@ def main(argv=None) -> int:
             "functions_under_contract": funcs, "by_backend": by_backend, "covers": covers,
             "not_verified": not_verified, "samples": samples, "known_findings_matched": [k["id"] for k, _ in known_hits],
             "failed_obligations": [o["name"] for _, o in violations], "undecided": undecided[:50],
-            "structural_obligations": len(struct), "covers_undecided": cover_unknown, "canaries": canary_report,
+            "structural_obligations": len(struct), "covers_undecided": cover_unknown, "canaries": canary_report, "cpython_crosscheck": crosscheck_report,
         },
         "assumptions": sorted(f"{k}: {v}" for k, v in assumed.items()) + structural.assumptions(pid),
         "wall_s": round(wall, 2), "violations": len(violations),
